@@ -22,6 +22,7 @@ point (lead local == U_0, U_0 in S, d in [lo, hi]) are the join over all incomin
 iteration, i.e. they are inductive loop invariants found by the analysis, not assumed.  The semantic side (which unit tuples
 are complete sequences, which scalars are right-to-left) is evaluated on products of interval sets.
 """
+import os
 import re
 from mirlib import *
 from paths import *
@@ -795,6 +796,17 @@ class Scanner:
                     if bool(e[1]) != truth:
                         return          # branch on a constant (likely(true) / short-circuit temporaries): the other edge is infeasible
                     continue
+                # 0. length of the sub-slice handed out by slice.get(lo..hi): exactly hi - lo (slice patterns test it)
+                if e[0] == 'bin' and e[1] in ('Lt', 'Le', 'Gt', 'Ge', 'Eq', 'Ne'):
+                    gl, gr = self.get_range_len(e[2]), self.get_range_len(e[3])
+                    if (gl is None) != (gr is None):
+                        other = unwrap_ident(self.expand(e[3] if gr is None else e[2]))
+                        if other[0] == 'c' and isinstance(other[1], int):
+                            a_, b_ = (gl, other[1]) if gr is None else (other[1], gr)
+                            val = {'Lt': a_ < b_, 'Le': a_ <= b_, 'Gt': a_ > b_, 'Ge': a_ >= b_, 'Eq': a_ == b_, 'Ne': a_ != b_}[e[1]]
+                            if val != truth:
+                                return      # infeasible edge
+                            continue
                 # 1. distance to the end
                 if e[0] == 'bin' and e[1] in ('Lt', 'Le', 'Gt', 'Ge', 'Eq', 'Ne'):
                     dd = self.len_cmp(e, base)
@@ -803,7 +815,10 @@ class Scanner:
                         self.apply_d(st, op, cst, truth)
                         continue
                     if any(isinstance(s, tuple) and s and s[0] == 'len' for s in walk(e)) and self.mentions_other_len(e, base):
-                        outfull = True
+                        # only the edge on which the output cursor has reached the other buffer's length excuses a later stop;
+                        # the edge that proves there IS room left does not
+                        if self.full_edge(e, truth):
+                            outfull = True
                 # 2. table tests
                 e2 = self.rw(e, base, alias)
                 tt = table_test(e2)
@@ -917,7 +932,14 @@ class Scanner:
         elif end[0] == 'return':
             self.returns_seen += 1
             n0 = len(self.obligations) + self.delegated
+            n_ob = len(self.obligations)
             self.verdict(st, p, base, alias, blks, env_eval, outfull)
+            if os.environ.get('SCAN_DEBUG') and any(not o[1] for o in self.obligations[n_ob:]):
+                import sys
+                sys.stderr.write('SCAN_DEBUG %s path %s\n' % (b.name, blks))
+                for ev in p.events:
+                    if ev[0] in ('cond', 'assert'):
+                        sys.stderr.write('   %s %r lab=%r bb=%r\n' % (ev[0], self.expand(ev[1]) if not (isinstance(ev[1], tuple) and ev[1][0] == 'variant') else ('variant', self.expand(ev[1][1])), ev[2], ev[3]))
             if len(self.obligations) + self.delegated > n0:
                 self.returns_decided += 1
             else:
@@ -949,6 +971,45 @@ class Scanner:
 
     def path_sig(self, st, k):
         return ','.join('%d:%r' % (j, st.get(j)) for j in range(k))
+
+    def get_range_len(self, x):
+        """x == len(payload of `slice.get(lo..hi)` matched as Some)  ->  the constant hi - lo, else None"""
+        x = unwrap_ident(self.expand(x))
+        if not (isinstance(x, tuple) and x[0] == 'len'):
+            return None
+        y = x[1]
+        while isinstance(y, tuple) and y[0] in ('deref', 'ref'):
+            y = y[1]
+        if not (isinstance(y, tuple) and y[0] == 'fld' and y[2] == '0' and isinstance(y[1], tuple) and y[1][0] == 'as' and y[1][2] == 'Some'):
+            return None
+        c = y[1][1]
+        if not (isinstance(c, tuple) and c[0] == 'call' and (c[1] or '').startswith('core::slice::<impl [T]>::get') and (c[1] or '').rsplit('::', 1)[-1] == 'get' and len(c[2]) == 2):
+            return None
+        ix = self.expand(c[2][1])
+        if not (ix[0] == 'agg' and ix[1].endswith('Range::Range') and len(ix[2]) == 2):
+            return None
+        try:
+            d = lin_add(lin(self.expand(ix[2][1])), lin(self.expand(ix[2][0])), -1)
+        except Exception:
+            return None
+        return d[1] if d[0] == {} and d[1] >= 0 else None
+
+    def full_edge(self, e, truth):
+        """`X op len(other)` (or mirrored): is this the edge on which X has reached the length?  Unknown shapes count as full (no alarm)."""
+        op = e[1]
+        def has_len(x):
+            return any(isinstance(s_, tuple) and s_ and s_[0] == 'len' for s_ in walk(self.expand(x)))
+        l_left, l_right = has_len(e[2]), has_len(e[3])
+        if l_left == l_right:
+            return True
+        if l_left:
+            op = {'Lt': 'Gt', 'Le': 'Ge', 'Gt': 'Lt', 'Ge': 'Le'}.get(op, op)
+        # now: X op len
+        if op in ('Eq', 'Ge', 'Gt'):
+            return truth
+        if op in ('Lt', 'Le', 'Ne'):
+            return not truth
+        return True
 
     def mentions_other_len(self, e, base):
         for s in walk(e):
